@@ -19,6 +19,7 @@ def run(ctx, rep):
     panicrules.gate_rule(ctx, rep)
     lexrules.lexbal_rule(ctx, rep, esc=False)
     panicrules.nth_rule(ctx, rep)
+    panicrules.initsib_rule(ctx, rep)
     rep.assume("dependencies (logos and its derive output, codespan-reporting, std) do not panic when their documented preconditions hold")
     rep.assume("stderr is writable")
     rep.assume("recursion depth (stack exhaustion on deeply nested input) is not analysed")
